@@ -18,7 +18,7 @@ PROPS = {
     level_note="Soundness of grouping; uniqueness of the witness and completeness of acceptance are not proved. Assumes A1 A2 A3 A6 A8.",
     always_bounded=dict(function='acceptance of well-formed input by parse_expression (completeness clause of the parser theorem)', categories=['parse'],
         why="the parser theorem is a soundness theorem: a change that makes the parser reject (or the tokenizer fail on) a sentence of the grammar violates no contract; completeness needs a functional tokenizer specification and uniqueness of witnesses, which are not within reach",
-        bound="fixed + seeded corpus of vx/corpus.py (about 4000 inputs: every ordered pair of operators plain and negated, prefix/postfix/conditional/call/list/map forms, corruptions of valid programs, multi-byte neighbours, random expressions of depth <= 3) against the reference grammar of vx/oracle.py"),
+        bound="fixed + seeded corpus of vx/corpus.py (about 3 900 inputs: every ordered pair of operators plain and negated, long flat chains and nesting up to depth 150, string literals with multi-byte characters at every offset, prefix/postfix/conditional/call/list/map forms, corruptions of valid programs, multi-byte neighbours, random expressions of depth <= 3) against the reference grammar of vx/oracle.py"),
     not_covered=["uniqueness of the derivation witness", NC_COMPLETE + ' - bounded stand-in only']),
  'C03': dict(units=['hv', 'ev', 'lb'], assumptions=[A1, A2, A3, A4, A5, A6],
     level_text="Unbounded proof: each of the 23 built-in handlers (lifted byte-for-byte from the init() functions) agrees with a spec function written from the README/property for every operand value, including every wrongly-typed operand; the evaluator agrees with the big-step semantics sem for every AST and context.",
@@ -32,7 +32,7 @@ PROPS = {
     level_text="Unbounded proof (the parser theorem, see C02): an accepted input is exactly a token chain of the documented grammar to EOF - every separator/delimiter/operator token has the required text, nothing dropped, nothing consumed as something else; expect() is Ok only on a match; string/number scanners return Ok only for a terminated string / a valid decimal.",
     always_bounded=dict(function='rejection/acceptance agreement of parse_expression with the documented grammar (completeness clause)', categories=['parse'],
         why="see C02: acceptance of every sentence of the grammar is outside the contracts' reach",
-        bound="fixed + seeded corpus of vx/corpus.py (about 4000 inputs: every ordered pair of operators plain and negated, prefix/postfix/conditional/call/list/map forms, corruptions of valid programs, multi-byte neighbours, random expressions of depth <= 3) against the reference grammar of vx/oracle.py"),
+        bound="fixed + seeded corpus of vx/corpus.py (about 3 900 inputs: every ordered pair of operators plain and negated, long flat chains and nesting up to depth 150, string literals with multi-byte characters at every offset, prefix/postfix/conditional/call/list/map forms, corruptions of valid programs, multi-byte neighbours, random expressions of depth <= 3) against the reference grammar of vx/oracle.py"),
     level_note="Assumes A1 A2 A3 A6 A8.", not_covered=[NC_COMPLETE + ' - bounded stand-in only']),
  'C06': dict(units=['ev', 'lb', 'hv'], assumptions=[A1, A4, A5, A6],
     level_text="Unbounded proof: exec_binary's SETTER branch, exec_chain, exec_reference against sem (bind after both sides are evaluated, under the target name, result None, failure = no insertion, non-reference target = Err); Context::set_variable/get_variable against the map view; the ten compound handlers have the same spec function as their plain operator.",
@@ -56,7 +56,7 @@ PROPS = {
     level_text="Unbounded proof: expr(t)@ == render(t) for every AST, render written from the grammar (parenthesisation rules per position, quote choice, separators). That render inverts the parser needs parser completeness (not proved).",
     always_bounded=dict(function='round trip parse -> expr() -> parse through the real parser (that render inverts the parser)', categories=['parse'],
         why="expr() is proved equal to the spec function render; that render is a right inverse of the real parser needs parser completeness, which is outside the contracts' reach",
-        bound="fixed + seeded corpus of vx/corpus.py (about 4000 inputs: every ordered pair of operators plain and negated, prefix/postfix/conditional/call/list/map forms, corruptions of valid programs, multi-byte neighbours, random expressions of depth <= 3) against the reference grammar of vx/oracle.py"),
+        bound="fixed + seeded corpus of vx/corpus.py (about 3 900 inputs: every ordered pair of operators plain and negated, long flat chains and nesting up to depth 150, string literals with multi-byte characters at every offset, prefix/postfix/conditional/call/list/map forms, corruptions of valid programs, multi-byte neighbours, random expressions of depth <= 3) against the reference grammar of vx/oracle.py"),
     level_note="Printer against a spec function; see DESIGN.md 5 C12.", not_covered=["that render inverts the real parser in general (needs completeness) - bounded stand-in only"]),
  'C17': dict(units=['hv'], assumptions=[A1, A2, A3, A6],
     level_text="Unbounded proof: every accessor is Ok on exactly one variant and returns the payload; Value::from(n) denotes n for i8..i64/u8..u64 (i128/u128 beyond 96 bits: known finding); integer() returns n for every number that is the integer n in i64 range whatever its scale, Err otherwise.",
